@@ -14,8 +14,8 @@ VARIABLES ps,      \* [Parts -> P fold state without `next']
           ok
 vars == <<ps, sg, sr, sw, last, cls, ok>>
 
-Rel(st) == [open |-> st.open, pf |-> st.pf, closed |-> st.closed, rs |-> st.rs]
-Abs(rst) == [next |-> 8, open |-> rst.open, pf |-> rst.pf, closed |-> rst.closed, rs |-> rst.rs]
+Rel(st) == [used |-> st.used, pf |-> st.pf, closed |-> st.closed, rs |-> st.rs]
+Abs(rst) == [next |-> 8, used |-> rst.used, pf |-> rst.pf, closed |-> rst.closed, rs |-> rst.rs]
 Big == 1000
 
 MCInit == /\ ps = [p \in Parts |-> Rel(PInit)]
@@ -62,5 +62,5 @@ MCRefinement == ok => \A q \in Parts :
    /\ sg[q].d = 0 /\ sr[q].d = 0 /\ sw[q].d = 0
    /\ sr[q].pfull = sw[q].pfull /\ sr[q].pfirst = sw[q].pfirst
    /\ sg[q].pfull[q] = sr[q].pfull /\ sg[q].pfirst[q] = sr[q].pfirst
-   /\ SGuardAfter => ((ps[q].open = -1) <=> sr[q].pfull)
+   /\ SGuardAfter => ((ps[q].used = {}) <=> sr[q].pfull)
 =============================================================================
